@@ -21,6 +21,7 @@ from . import c01_run as R
 VARIANTS = ["eager", "coro_eager", "func_eager", "eager_func", "factory", "eager_ctx", "cancelling",
             "pytask_factory", "loopfactory_classic", "loopfactory_kw"]
 CTX_VARIANTS = ("eager_ctx", "cancelling")
+CANCEL_MSG = "bye"
 # how the `with` block is left: normally, by an Exception, or by a BaseException (the CancelledError of the task
 # owning the block, GeneratorExit of a generator being closed, a custom BaseException)
 EXIT_EXC = [None, None, None, "E1", "CA", "CA", "GE", "B1"]
@@ -48,7 +49,8 @@ def gen_env_event(rng, nfut, with_cancel, allow_run):
     r = rng.random()
     f = rng.randrange(nfut)
     if with_cancel and r < 0.30:
-        return ["cancel"]
+        # cancel() / cancel(msg): a plain Task delivers the message to the body and to the awaiter
+        return ["cancel"]           # uniform_messages() decides per case whether the cancels carry a message
     if allow_run and r < 0.45:
         return ["run"]
     if r < 0.72:
@@ -76,6 +78,7 @@ def gen_single(rng, with_cancel, raw=False):
             for _ in range(rng.randint(1, 3)):
                 script.append(gen_env_event(rng, nfut, with_cancel, True))
             script.append(["settle"])
+    script = uniform_messages(rng, script)
     variant = rng.choice(VARIANTS)
     ncan = sum(1 for e in script if e[0] == "cancel")
     if variant in CTX_VARIANTS and not ncan:
@@ -124,6 +127,7 @@ def gen_ctx(rng):
         if rng.random() < 0.15:
             script += [["res", rng.randrange(nfut), rng.randint(1, 9)], ["settle"]]
     script.append(["settle"])
+    script = uniform_messages(rng, script)
     total = sum(1 for e in script if e[0] == "cancel")
     variant = rng.choice(["eager_ctx", "eager_ctx", "cancelling", "eager"])
     case = {"kind": "single", "prog": prog, "futs": futs, "script": script, "variant": variant}
@@ -133,6 +137,21 @@ def gen_ctx(rng):
     if not script_ok(script):
         script.append(["settle"])
     return expand(case)
+
+
+def uniform_messages(rng, items, multi=False):
+    """Per case either every cancel carries the message or none does: a cancel issued before the continuation's
+    first step takes effect at that step (notes/C03.md), so with *different* messages in that window the eager Task
+    legitimately delivers the last one where the plain Task delivers the first."""
+    if rng.random() >= 0.4:
+        return items
+    out = []
+    for it in items:
+        e = it[0] if multi else it
+        if e[0] == "cancel" and len(e) == (2 if multi else 1):
+            e = e + [CANCEL_MSG]
+        out.append([e, it[1]] if multi else e)
+    return out
 
 
 def expand(case):
@@ -243,6 +262,10 @@ def oracle_single(case):
             tags.add("block-left-by:" + ("Exception" if case["exit_exc"] == "E1" else "BaseException"))
     if "Q" in case["futs"]:
         tags.add("python-implemented-future")
+    if any(e[0] == "cancel" and len(e) > 1 for e in ev):
+        tags.add("cancel-with-message")
+        if any(e[0] == "cancel" and len(e) > 1 for e in pre) and p0["out"] == "-":
+            tags.add("cancel-with-message-before-first-step")
     for i, e in enumerate(ev):
         if e[0] == "cancel" and i >= n:
             tags.add("cancel-later")
@@ -276,6 +299,16 @@ def oracle_single(case):
         if ce == cp2:
             tags.add("delayed-cancel-reference")
             continue
+        # Only the *message* differs, in the window race "awaited future completed, then cancel(msg), then the
+        # first step": the plain Task's body gets the CancelledError of the (cancelled) future it waited on, the
+        # eager one the Task's own CancelledError(msg) — both are a cancellation delivered at that point.
+        if any(e[0] in ("res", "fail", "cf") for e in pre) and any(e[0] == "cancel" and len(e) > 1 for e in pre):
+            def nomsg(c):
+                m_ = f"('{CANCEL_MSG}',)"
+                return {**c, "log": [x.replace(m_, "") for x in c["log"]], "out": c["out"].replace(m_, "")}
+            if nomsg(ce) in (nomsg(cp), nomsg(cp2)):
+                tags.add("message-race-in-window")
+                continue
         field = next(k for k in ("log", "out", "ph", "futs") if ce[k] != cp[k])
         return ("settled:" + field, cp, ce), tags
     if case["marks"]:
@@ -288,14 +321,14 @@ def oracle_single(case):
 def delayed(events):
     n = pre_len(events)
     ncan = sum(1 for e in events[:n] if e[0] == "cancel")
-    pre = [e for e in events[:n] if e[0] != "cancel"] + [["cancel"]] * ncan
+    pre = [e for e in events[:n] if e[0] != "cancel"] + [e for e in events[:n] if e[0] == "cancel"]
     return pre + events[n:]
 
 
 def key_single(prop, what, case):
     pre = case["events"][:pre_len(case["events"])]
     where = "cancel-before-first-step" if any(e[0] == "cancel" for e in pre) else \
-        "cancel" if ["cancel"] in case["events"] else "no-cancel"
+        "cancel" if any(e[0] == "cancel" for e in case["events"]) else "no-cancel"
     clr = ":flag-cleared-while-held" if any(e[0] == "clr" for e in pre) else ""
     if case.get("caller", "task") != "task":
         return f"{prop}:single:called-from-loop-callback"
@@ -423,6 +456,7 @@ def gen_multi(rng, with_cancel):
             env.append([["cancel", rng.randrange(ntop)], False])
         env.append([["res", f, rng.randint(1, 9)] if r < 0.75 else ["fail", f, rng.choice(FAIL_KINDS)]
                     if r < 0.9 else ["cf", f], False])
+    env = uniform_messages(rng, env, multi=True)
     case = {"kind": "multi", "progs": progs, "children": children, "futs": futs, "env": env,
             "settle": st, "variant": rng.choice(["eager", "coro_eager", "func_eager", "factory", "pytask_factory",
                                                  "loopfactory_classic", "loopfactory_kw"])}
@@ -565,7 +599,7 @@ def key_multi(prop, what, case):
 
 
 def lean_line(case, mode, fix="R"):
-    ev = " ".join(" ".join(str(x) for x in e) for e in case["events"])
+    ev = " ".join("cancel" if e[0] == "cancel" else " ".join(str(x) for x in e) for e in case["events"])
     futs = ["P" if f == "Q" else f for f in case["futs"]]    # a Python-implemented Future is a Future to the model
     return f"case {mode} {fix} ; {' '.join(futs)} ; {L.prog_text(case['prog'])} ; {ev}"
 
@@ -580,7 +614,8 @@ def correspondence(ctx, prop, cases, theorem):
         raise core.InfraError(f"Eager driver answered {len(outs)} lines for {len(lines)} cases")
     bad = []
     for (c, m), o in zip(cases, outs):
-        real = [x.replace("~ |", " |") for x in real_single(c, m)]
+        # identity marker and cancel message are compared between the eager and the plain-Task run only
+        real = [x.replace("~ |", " |").replace(f"CA('{CANCEL_MSG}',)", "CA") for x in real_single(c, m)]
         ctx.traces += 1
         model = o.split(" ;; ")
         if prop == "C03":
